@@ -44,6 +44,9 @@ PROJ = {
     "pkg/sibling.py": "def double(x):\n    return x * 2\n",
     "ignored_dir/ig.py": "from core import compute, Shape\n\nz = compute(5)\nq = Shape(1).area()\n",
     "notes.txt": "compute and Shape are mentioned here\n",
+    # coding lines Python accepts (utf-8-* / latin-1-* are normalised) although no such codec is registered
+    "legacy_flags.py": "# -*- coding: utf-8-unix -*-\nLEGACY_FLAG = 1\n",
+    "pkg/legacy_dos.py": "#!/usr/bin/env python\n# vim: set fileencoding=latin-1-dos :\nDOS_FLAG = 2\n",
     # ignored through a '//' pattern (any number of folders in between)
     "gen/stubs0.py": "from core import compute\n\ng0 = compute(7)\n",
     "gen/v1/internal/stubs.py": "from core import compute, Shape\n\ng1 = compute(8)\ng2 = Shape(2).area()\n",
@@ -626,6 +629,8 @@ class EffectsEngine(Engine):
             st["resources"] = sorted(set(rng.sample(pool, rng.randint(0, min(3, len(pool))))))
         if k in SUPPORTS_TASK_HANDLE and rng.random() < swarm["p_stop"]:
             st["stop_at"] = rng.choice([-1, 0, 1, 2, 3, 5])
+        elif k in SUPPORTS_TASK_HANDLE and rng.random() < 0.3:
+            st["progress"] = True  # a task handle whose observer only displays progress
         st["perform"] = rng.random() < swarm["p_perform"]
         st["undo"] = rng.random() < swarm["p_undo"]
         if st["new"] in ("1bad", "has space", ""):
@@ -741,6 +746,9 @@ class EffectsEngine(Engine):
                     stopper = simfs.TaskStopper(stop_at=st["stop_at"])
                     th = stopper.handle
                     out.stats["exec_stop"] += 1
+                elif st.get("progress") and k in SUPPORTS_TASK_HANDLE:
+                    th = simfs.TaskStopper(stop_at=None).handle
+                    out.stats["exec_progress_observer"] += 1
                 audit_start(u.dir)
                 exc = None
                 changes = None
@@ -883,7 +891,10 @@ class EffectsEngine(Engine):
                 audit_start(u.dir)
                 pexc = None
                 try:
-                    u.project.do(changes)
+                    if st.get("progress"):
+                        u.project.do(changes, task_handle=simfs.TaskStopper(stop_at=None).handle)
+                    else:
+                        u.project.do(changes)
                 except Exception as e:
                     pexc = e
                 events = audit_stop()
